@@ -2,13 +2,23 @@
 (* Enumerator / exhaustive check for C27 *)
 EXTENDS HandlerContract
 CONSTANT Defect   \* "none", or "per_item": the code as found runs the script once per matching filter item (a config that
-                  \* EXPECTS the monitor to fire, so that the recorded finding is not vacuous)
+                  \* EXPECTS the monitor to fire, so that the recorded finding is not vacuous); "empty_update_ignored":
+                  \* a reload to an empty handler list is ignored (seeded C27-3)
 VARIABLES inp, ph, out
 vars == <<inp, ph, out>>
 Init == inp \in Inputs /\ ph = "in" /\ out = 0
 PerItem(i) == [count |-> IF i.spec = <<>> THEN 1 ELSE Cardinality({ k \in DOMAIN i.spec : ItemMatch(i.spec[k], i.ev) })]
+\* the code with seeded C27-3: an update to an EMPTY handler list is ignored, the previous handlers stay in force
+RECURSIVE InForce(_, _)
+InForce(hist, j) == LET u == LastCfg(hist, j) IN IF hist[u].op = "update" /\ hist[u].specs = <<>> THEN InForce(hist, u) ELSE u
+StaleHandlers(i) ==
+  [runs |-> [j \in DOMAIN i.hist |-> IF i.hist[j].op # "event" THEN <<>> ELSE
+               LET u == InForce(i.hist, j)
+               IN SeqOf({ <<u, h, 1>> : h \in { h \in DOMAIN i.hist[u].specs : Match(i.hist[u].specs[h], i.hist[j].ev) } })]]
 Eval == /\ ph = "in" /\ ph' = "out" /\ UNCHANGED inp
-        /\ out' = IF Defect = "per_item" /\ inp.ep = "filter" THEN PerItem(inp) ELSE Expected(inp)
+        /\ out' = IF Defect = "per_item" /\ inp.ep = "filter" THEN PerItem(inp)
+                  ELSE IF Defect = "empty_update_ignored" /\ inp.ep = "reload" THEN StaleHandlers(inp)
+                  ELSE Expected(inp)
 Next == Eval
 C27 == ph = "out" => Clauses(inp, out) = {}
 \* laws of the definition: escaping removes every raw tab and newline; the payload rule ends non-empty input with a newline
